@@ -3,6 +3,7 @@
 use serde::{Deserialize, Serialize};
 
 use crate::gen_stmt::*;
+use crate::stmt::*;
 use crate::run::{catch, panic_class, Ctx, Failure, Obs, Property, Tier};
 use crate::sql::*;
 use crate::tape::Tape;
@@ -107,6 +108,46 @@ fn nested(t: &mut Tape) -> String {
 
 /// texts that are invalid by construction and must be rejected with an error
 fn invalid_definition(t: &mut Tape) -> (String, &'static str) {
+    const BAD_REGEX: [&str; 9] = ["(", "[a-", "(?P<n", "a{2,1}", "*", "\\", "(?z)", "x)", "([0-9]+"];
+    if t.chance(1, 3) {
+        // a generated (valid) definition with one fault injected: any named pattern - used by a column or not - or an inline pattern
+        let mut def = crate::gen_stmt::gen_tabledef(t, "t");
+        let bad = t.pick(&BAD_REGEX).to_string();
+        let pattern_slots: Vec<usize> = def.entries.iter().enumerate().filter(|(_, e)| matches!(e, Entry::Pattern { .. })).map(|(i, _)| i).collect();
+        let inline_slots: Vec<usize> = def.entries.iter().enumerate().filter(|(_, e)| matches!(e, Entry::Column { source: Source::Inline(_), .. })).map(|(i, _)| i).collect();
+        let why = match t.draw(4) {
+            0 if !pattern_slots.is_empty() => {
+                let i = *t.pick(&pattern_slots);
+                if let Entry::Pattern { regex, .. } = &mut def.entries[i] {
+                    *regex = bad;
+                }
+                "bad-regex-in-generated"
+            }
+            1 if !inline_slots.is_empty() => {
+                let i = *t.pick(&inline_slots);
+                if let Entry::Column { source, .. } = &mut def.entries[i] {
+                    *source = Source::Inline(bad);
+                }
+                "bad-inline-regex-in-generated"
+            }
+            _ => {
+                // an additional pattern that no column refers to
+                let mode = match t.draw(3) {
+                    0 => Some("split".to_string()),
+                    1 => Some("match".to_string()),
+                    _ => None,
+                };
+                let at = match t.draw(3) {
+                    0 => 0,
+                    1 => def.entries.len(),
+                    _ => t.draw(def.entries.len() + 1),
+                };
+                def.entries.insert(at, Entry::Pattern { name: "unused".to_string(), mode, regex: bad });
+                "bad-regex-unreferenced"
+            }
+        };
+        return (def.text(), why);
+    }
     match t.draw(12) {
         0 => (format!("CREATE TABLE t(line = '{}', line[1] => x INT);", *t.pick(&["(", "[a-", "(?P<n", "a{2,1}", "*", "\\\\", "(?z)"])), "bad-regex"),
         1 => (format!("CREATE TABLE t('{}' => x TEXT);", *t.pick(&["(", "[", "x)"])), "bad-inline-regex"),
@@ -199,7 +240,7 @@ impl Property for C14 {
 
     fn cases(&self, tier: Tier) -> u64 {
         match tier {
-            Tier::Quick => 120_000,
+            Tier::Quick => 360_000,
             Tier::Thorough => 4_000_000,
         }
     }
